@@ -101,3 +101,57 @@ class RowHook:
         if self._orig is not None:
             Row._as_rtf = self._orig
             self._orig = None
+
+
+def provoke_failures():
+    """Calls that FAIL, made once at the start of a shard process (every second shard): whatever a failed call
+    leaves behind in the process (a remapped font, a flag, a half-set context) must not change what the
+    following, ordinary calls observe.  Returns the number of calls that raised."""
+    import contextlib as _c
+    import io as _io
+    raised = 0
+    try:
+        from rtflite.strwidth import get_string_width
+    except Exception:  # noqa
+        return 0
+    probes = []
+    for f in range(1, 11):
+        probes.append(dict(text="width probe", font=f, font_size=0.25))      # FreeType: invalid ppem
+        probes.append(dict(text="width probe", font=f, font_size=1e9))
+    probes += [dict(text="x", font=0), dict(text="x", font=11), dict(text="x", font="No Such Font"),
+               dict(text="x", unit="cm"), dict(text="x", font_size=0), dict(text="x", font_size=-3),
+               dict(text=None)]
+    for kw in probes:
+        try:
+            get_string_width(**kw)
+        except BaseException:  # noqa
+            raised += 1
+    try:
+        import polars as pl
+        import rtflite as rtf
+        df = pl.DataFrame({"a": ["x", "y", "x"], "b": ["wide text " * 30] * 3})
+        docs = [
+            lambda: rtf.RTFDocument(df=df, rtf_body=rtf.RTFBody(group_by=["a"], text_color="red")),     # ValueError
+            lambda: rtf.RTFDocument(df=df, rtf_body=rtf.RTFBody(text_font_size=0.25, text_font=9),
+                                    rtf_page=rtf.RTFPage(nrow=5)),
+            lambda: rtf.RTFDocument(df=[df, df], rtf_body=[rtf.RTFBody(), rtf.RTFBody(group_by=["a"])],
+                                    rtf_page=rtf.RTFPage(border_first="double", border_last="double")),
+        ]
+        for mk in docs:
+            try:
+                d = mk()
+                with _c.redirect_stdout(_io.StringIO()):
+                    d.rtf_encode()
+            except BaseException:  # noqa
+                raised += 1
+        # a palette made invalid after construction fails inside the colour lookup
+        try:
+            d = rtf.RTFDocument(df=df, rtf_body=rtf.RTFBody(text_color=["red", "blue"]))
+            d.rtf_body.text_color = [["red", "notacolour"]]
+            with _c.redirect_stdout(_io.StringIO()):
+                d.rtf_encode()
+        except BaseException:  # noqa
+            raised += 1
+    except Exception:  # noqa
+        pass
+    return raised
